@@ -175,6 +175,9 @@ fn case(srv: &mut Srv, seed: u64, res: &mut CaseResult) -> R<()> {
             d.3.push(tok);
             // unrelated traffic: another name's sends, ordinary frames, a send without content
             srv.must_append("unrelated.send", d.1, Some(b"noise\n"), None, None)?;
+            // ... and sends for names that merely end with this generator's name
+            srv.must_append(&format!("my.{}.send", d.0), d.1, Some(b"noise-for-a-longer-name\n"), None, None)?;
+            srv.must_append(&format!("x{}.send", d.0), d.1, Some(b"noise-for-a-prefixed-name\n"), None, None)?;
             srv.must_append("chatter", d.1, None, None, None)?;
         }
         if t == 1 {
